@@ -123,6 +123,15 @@ func joinValues(values []any, sep string) string {
 	return strings.Join(strValues, sep)
 }
 
+// defaultValueToString renders a default value for a header or cookie: arrays are
+// comma separated (styles simple and form without explode), anything else is printed as is.
+func defaultValueToString(value any) string {
+	if values, ok := value.([]any); ok {
+		return joinValues(values, ",")
+	}
+	return fmt.Sprint(value)
+}
+
 // populateDefaultQueryParameters populates default values inside query parameters, while ensuring types are respected
 func populateDefaultQueryParameters(q url.Values, parameterName string, value any, explode bool) {
 	switch t := value.(type) {
@@ -196,11 +205,11 @@ func ValidateParameter(ctx context.Context, input *RequestValidationInput, param
 				populateDefaultQueryParameters(q, parameter.Name, value, explode)
 				req.URL.RawQuery = q.Encode()
 			case openapi3.ParameterInHeader:
-				req.Header.Add(parameter.Name, fmt.Sprint(value))
+				req.Header.Add(parameter.Name, defaultValueToString(value))
 			case openapi3.ParameterInCookie:
 				req.AddCookie(&http.Cookie{
 					Name:  parameter.Name,
-					Value: fmt.Sprint(value),
+					Value: defaultValueToString(value),
 				})
 			}
 		}
